@@ -16,7 +16,9 @@ CONTEXTS = [
     ('ltonly', "<'a, 'b: 'a>", ["'a", "'b: 'a"], ["'a", "'b"], [], ["&'a u8", "&'b u8"]),
     ('defb', '<T: Clone = String, U = T>', ['T: Clone', 'U'], ['T', 'U'], ['T', 'U'], ['T', 'U']),
 ]
-WHERES = [('w0', []), ('w1', ['u8: Copy']), ('w2', ['Vec<u8>: Clone', "for<'x> &'x u16: Sized"])]
+# (id, predicates, spelling): 'plain'; 'comma' = trailing comma after the last predicate; 'empty' = a `where` keyword without predicates
+WHERES = [('w0', [], 'plain'), ('w1', ['u8: Copy'], 'plain'), ('w2', ['Vec<u8>: Clone', "for<'x> &'x u16: Sized"], 'plain'),
+          ('w1c', ['u8: Copy'], 'comma'), ('w2c', ['Vec<u8>: Clone', "for<'x> &'x u16: Sized"], 'comma'), ('w0e', [], 'empty')]
 # bound modes: (id, meta text or None, kind, predicates)
 CUSTOM1 = ['u32: Marker3']
 CUSTOM2 = ['u32: Marker3', 'Vec<u64>: ::core::fmt::Debug + Send']
@@ -86,6 +88,10 @@ def item_text(kind, ctx, wh, metas, markers, markers1=''):
     """markers: attribute text for the first field of every struct / variant; markers1: for the second field of structs"""
     cid, decl, _, _, _, ftys = ctx
     where = ('where ' + ', '.join(wh[1])) if wh[1] else ''
+    if wh[2] == 'comma':
+        where += ','
+    elif wh[2] == 'empty':
+        where = 'where'
     attrs = ''.join('#[educe(%s)]\n' % m for m in metas)
     if kind == 'struct':
         return '#[derive(Educe)]\n%sstruct Ty%s %s {\n    %sf0: %s,\n    %sf1: %s,\n}\n' % (attrs, decl, where, markers, ftys[0], markers1, ftys[1])
